@@ -125,6 +125,10 @@ def fam_list(ctx, rng):
     k = int(rng.choice([1, 2, 2, 3, 3, 4, 5, 6, 8, 12]))
     k, many = gen.maybe_large(rng, ctx, k, [270, 300, 530], p_quick=0.03, p_thorough=0.02)     # hours of windows in one call
     arrangement = ARR[int(rng.integers(0, len(ARR)))]
+    forced = ctx.every(41, 11)          # a fixed handful of cases per run: a long list, mixed time steps in blocks, a keeping policy
+    if forced:
+        k, many = int(rng.choice([270, 300, 530])), True
+        arrangement = str(rng.choice(["majority-first", "majority-last", "sorted", "reverse"]))
     dts = gen_dts(rng, k, arrangement)
     lengths = [int(rng.choice([200, 500] if many else [200, 500, 1000, 2048, 3001, 6000])) for _ in range(k)]
     items = []
@@ -138,6 +142,8 @@ def fam_list(ctx, rng):
         dts[-1], lengths[-1] = dts[j], lengths[j]
         dup = j
     policy = POLICIES[int(rng.integers(0, 3))]
+    if forced:
+        policy = POLICIES[1 + int(rng.integers(0, 2))]
     kind = str(rng.choice(["freq", "freq", "single", "rotdpp", "azimuthal"]))
     N = int(rng.choice([2 ** 15, 2 ** 16]))
     dt_min_nyq = max(dts)
